@@ -18,6 +18,7 @@ import common as C
 import fullrun as FR
 
 STATIC = ["Model/Sev.vo"]
+EXTRA_PROPS = ["C01b"]
 GRID = 40000
 
 
